@@ -290,7 +290,102 @@ func factsC05(r *Repo) []Fact {
 		}
 	}
 	out = append(out, c05EagerDrainFact(run, h, where)...)
+	out = append(out, c05EmptyStreamFact(cp)...)
 	return out
+}
+
+// c05EmptyStreamFact: how does the checkpoint carry a stream that was closed without any chunk?
+// In defaultStreamConvertPair[T] (the converter of every pending input / channel content of a
+// checkpoint taken in a stream paradigm): `concatStream` must answer `nil, nil` under
+// `if errors.Is(err, emptyStreamConcatErr)`, and `restoreStream` must answer a stream built from an
+// empty slice (`[]T{}`) under `if a == nil`. Anything else (e.g. the typed zero value stored: it comes
+// back as a stream with one zero chunk) makes the fact false.
+func c05EmptyStreamFact(cp *Pkg) []Fact {
+	const name = "emptyStreamStoredAsNil"
+	fd, file := cp.Func("", "defaultStreamConvertPair")
+	where := "compose/" + file + ": defaultStreamConvertPair"
+	if fd == nil {
+		return []Fact{unknownFact(name, "Bool", "false", "compose: defaultStreamConvertPair", "function not found")}
+	}
+	var concat, restore *ast.FuncLit
+	ast.Inspect(fd.Body, func(n ast.Node) bool {
+		kv, ok := n.(*ast.KeyValueExpr)
+		if !ok {
+			return true
+		}
+		if fl, ok := kv.Value.(*ast.FuncLit); ok {
+			switch exprString(kv.Key) {
+			case "concatStream":
+				concat = fl
+			case "restoreStream":
+				restore = fl
+			}
+		}
+		return true
+	})
+	if concat == nil || restore == nil {
+		return []Fact{unknownFact(name, "Bool", "false", where, "concatStream / restoreStream function literals not found")}
+	}
+	// concatStream: the branch for the empty stream
+	concatSeen, concatNil := 0, false
+	ast.Inspect(concat.Body, func(n ast.Node) bool {
+		is, ok := n.(*ast.IfStmt)
+		if !ok {
+			return true
+		}
+		c, ok := is.Cond.(*ast.CallExpr)
+		if !ok || exprString(c.Fun) != "errors.Is" || len(c.Args) != 2 || exprString(c.Args[1]) != "emptyStreamConcatErr" {
+			return true
+		}
+		concatSeen++
+		if len(is.Body.List) == 1 {
+			if rs, ok := is.Body.List[0].(*ast.ReturnStmt); ok && len(rs.Results) == 2 &&
+				exprString(rs.Results[0]) == "nil" && exprString(rs.Results[1]) == "nil" {
+				concatNil = true
+			}
+		}
+		return true
+	})
+	// restoreStream: the branch for nil
+	restoreSeen, restoreEmpty := 0, false
+	for _, st := range restore.Body.List {
+		is, ok := st.(*ast.IfStmt)
+		if !ok {
+			continue
+		}
+		be, ok := is.Cond.(*ast.BinaryExpr)
+		if !ok || be.Op != token.EQL || exprString(be.Y) != "nil" || len(restore.Type.Params.List) != 1 ||
+			len(restore.Type.Params.List[0].Names) != 1 || exprString(be.X) != restore.Type.Params.List[0].Names[0].Name {
+			continue
+		}
+		restoreSeen++
+		if len(is.Body.List) == 1 {
+			if rs, ok := is.Body.List[0].(*ast.ReturnStmt); ok && len(rs.Results) == 2 && exprString(rs.Results[1]) == "nil" {
+				lits, empty := 0, true
+				ast.Inspect(rs.Results[0], func(n ast.Node) bool {
+					if cl, ok := n.(*ast.CompositeLit); ok {
+						lits++
+						if _, isArr := cl.Type.(*ast.ArrayType); !isArr || len(cl.Elts) != 0 {
+							empty = false
+						}
+					}
+					return true
+				})
+				restoreEmpty = lits == 1 && empty
+			}
+		}
+	}
+	if concatSeen != 1 || restoreSeen != 1 {
+		return []Fact{unknownFact(name, "Bool", "false", where, "the `errors.Is(err, emptyStreamConcatErr)` branch of concatStream / the `== nil` branch of restoreStream not found exactly once")}
+	}
+	return []Fact{boolFact(name, concatNil && restoreEmpty, where+": concatStream answers `nil, nil` for a stream without chunks ("+c05Bool(concatNil)+"), restoreStream answers a stream built from an empty slice for nil ("+c05Bool(restoreEmpty)+")")}
+}
+
+func c05Bool(b bool) string {
+	if b {
+		return "true"
+	}
+	return "false"
 }
 
 // c05EagerDrainFact: eager mode (Workflows). What does the interrupt site after `tm.waitAll()` (an
